@@ -7,11 +7,14 @@ package c04
 import (
 	"fmt"
 	"math"
+	"sort"
+	"strings"
 	"testing"
 
 	"github.com/6tail/lunar-go/SolarUtil"
 	"github.com/6tail/lunar-go/calendar"
 	"pgregory.net/rapid"
+	"verif/internal/dig"
 	"verif/internal/ev"
 	"verif/internal/gen"
 	"verif/internal/ref"
@@ -362,6 +365,168 @@ var monthStep = ev.Register(&ev.P[stepCase]{
 })
 
 // ------------------------------------------------------------------------------------------
+// 5b. a civil date-time is its six numbers, however the object was reached
+
+type rstep struct {
+	Kind string
+	N    int
+}
+
+type routeCase struct {
+	T     ref.DT
+	Src   string
+	Steps []rstep // stepping / conversion calls; "prime:*" steps only read the current object
+}
+
+var routeSources = []string{"NewSolar", "FromJulianDay", "ViaLunar", "WeekDay", "MonthDay", "FromYmd", "NextDayFromEve"}
+var routeSteps = []string{"NextDay", "NextHour", "NextMonth", "NextYear", "Next", "NextWorkday", "LunarAndBack", "JulianDayAndBack", "LunarNext",
+	"prime:ToYmdHms", "prime:ToYmd", "prime:ToFullString", "prime:GetJulianDay", "prime:GetWeek", "prime:GetLunar", "prime:GetFestivals", "prime:GetXingZuo", "prime:String"}
+
+func digestLines(d map[string]string) string {
+	ks := make([]string, 0, len(d))
+	for k := range d {
+		ks = append(ks, k)
+	}
+	sort.Strings(ks)
+	var sb strings.Builder
+	for _, k := range ks {
+		sb.WriteString(k + "=" + d[k] + "\n")
+	}
+	return sb.String()
+}
+
+var routes = ev.Register(&ev.P[routeCase]{
+	Name: "route_independence",
+	Rule: "a generated date-time, a generated way of obtaining its object (NewSolar, NewSolarFromYmd, NewSolarFromJulianDay of its own Julian Day, Lunar.GetSolar, an element of SolarWeek.GetDays / SolarMonth.GetDays, NextDay(1) of the eve) and a generated chain of 1..8 stepping/conversion calls (NextDay/NextHour incl. steps that stay within the day/NextMonth/NextYear/Next(n,false)/Next(n,true)/GetLunar().GetSolar()/NewSolarFromJulianDay(GetJulianDay())/Lunar.Next(n).GetSolar()) interleaved with read-only calls on the intermediate objects (printing, Julian Day, weekday, lunar conversion, festivals); oracle: the object reached answers every zero-argument accessor (Julian Day, weekday, both printed forms, festivals, sign, lunar conversion, …) exactly like NewSolar built afresh from its own six numbers — an object remembers nothing of the route it came by; non-trivial: the source is not NewSolar or the chain holds a read-only call followed by a step",
+	Check: func(c routeCase) (err error) {
+		defer func() {
+			if r := recover(); r != nil {
+				err = nil // a step left the supported range: not this sub-property's subject
+			}
+		}()
+		t := c.T
+		var s *calendar.Solar
+		switch c.Src {
+		case "NewSolar":
+			s = gen.Solar(t)
+		case "FromJulianDay":
+			s = calendar.NewSolarFromJulianDay(gen.Solar(t).GetJulianDay())
+		case "ViaLunar":
+			s = gen.Solar(t).GetLunar().GetSolar()
+		case "WeekDay":
+			for e := calendar.NewSolarWeekFromYmd(t.Y, t.M, t.D, t.S%7).GetDays().Front(); e != nil; e = e.Next() {
+				if x := e.Value.(*calendar.Solar); x.GetDay() == t.D && x.GetMonth() == t.M {
+					s = x
+				}
+			}
+		case "MonthDay":
+			for e := calendar.NewSolarMonthFromYm(t.Y, t.M).GetDays().Front(); e != nil; e = e.Next() {
+				if x := e.Value.(*calendar.Solar); x.GetDay() == t.D {
+					s = x
+				}
+			}
+		case "FromYmd":
+			s = calendar.NewSolarFromYmd(t.Y, t.M, t.D)
+		case "NextDayFromEve":
+			e := t.AddDays(-1)
+			s = gen.Solar(e).NextDay(1)
+		}
+		if s == nil {
+			return nil
+		}
+		for _, st := range c.Steps {
+			if s.GetYear() < 3 || s.GetYear() > 9996 {
+				return nil
+			}
+			switch st.Kind {
+			case "NextDay":
+				s = s.NextDay(st.N)
+			case "NextHour":
+				s = s.NextHour(st.N)
+			case "NextMonth":
+				s = s.NextMonth(st.N)
+			case "NextYear":
+				s = s.NextYear(st.N % 40)
+			case "Next":
+				s = s.Next(st.N, false)
+			case "NextWorkday":
+				s = s.Next(st.N%9, true)
+			case "LunarAndBack":
+				s = s.GetLunar().GetSolar()
+			case "JulianDayAndBack":
+				s = calendar.NewSolarFromJulianDay(s.GetJulianDay())
+			case "LunarNext":
+				s = s.GetLunar().Next(st.N).GetSolar()
+			case "prime:ToYmdHms":
+				_ = s.ToYmdHms()
+			case "prime:ToYmd":
+				_ = s.ToYmd()
+			case "prime:ToFullString":
+				_ = s.ToFullString()
+			case "prime:GetJulianDay":
+				_ = s.GetJulianDay()
+			case "prime:GetWeek":
+				_ = s.GetWeek()
+			case "prime:GetLunar":
+				_ = s.GetLunar().String()
+			case "prime:GetFestivals":
+				_ = s.GetFestivals().Len() + s.GetOtherFestivals().Len()
+			case "prime:GetXingZuo":
+				_ = s.GetXingZuo()
+			case "prime:String":
+				_ = s.String()
+			}
+		}
+		f := gen.FromSolar(s)
+		if !ref.Valid(f.Y, f.M, f.D, f.H, f.Mi, f.S) {
+			return fmt.Errorf("%v via %s %v: the object reached reads %v, which is not a date-time", t, c.Src, c.Steps, f)
+		}
+		if f.Y < 2 || f.Y > 9997 {
+			return nil
+		}
+		got, want := digestLines(dig.Of(s, 0)), digestLines(dig.Of(gen.Solar(f), 0))
+		if got != want {
+			return fmt.Errorf("%v via %s %v: the object reached reads %v but does not answer like NewSolar of those numbers: %s", t, c.Src, c.Steps, f, dig.Diff(dig.Of(s, 0), dig.Of(gen.Solar(f), 0), 4))
+		}
+		return nil
+	},
+	Class: func(c routeCase) ([]string, bool) {
+		ls := []string{"src:" + c.Src}
+		nt := c.Src != "NewSolar"
+		primed := false
+		for _, st := range c.Steps {
+			if strings.HasPrefix(st.Kind, "prime:") {
+				primed = true
+			} else if primed {
+				ls, nt = append(ls, "stepAfterRead"), true
+				primed = false
+			}
+			if st.Kind == "NextHour" && st.N > -24 && st.N < 24 {
+				ls = append(ls, "shortHourStep")
+			}
+		}
+		return ls, nt
+	},
+	Require: []string{"src:FromJulianDay", "src:ViaLunar", "src:WeekDay", "src:MonthDay", "stepAfterRead", "shortHourStep"},
+})
+
+func genRoute(t *rapid.T) routeCase {
+	c := routeCase{T: gen.MomentIn(t, 3, 9996), Src: rapid.SampledFrom(routeSources).Draw(t, "src")}
+	if c.Src == "WeekDay" || c.Src == "MonthDay" || c.Src == "FromYmd" {
+		c.T.H, c.T.Mi = 0, 0
+		if c.Src != "WeekDay" {
+			c.T.S = 0
+		}
+	}
+	n := rapid.IntRange(1, 8).Draw(t, "steps")
+	for i := 0; i < n; i++ {
+		k := rapid.SampledFrom(routeSteps).Draw(t, "step")
+		c.Steps = append(c.Steps, rstep{k, rapid.SampledFrom([]int{0, 1, -1, 2, 5, -5, 12, -13, 23, -23, 24, 30, -31, 365, -366}).Draw(t, "n")})
+	}
+	return c
+}
+
+// ------------------------------------------------------------------------------------------
 // 6. utilities per (year, month)
 
 type ymCase struct{ Y, M int }
@@ -500,6 +665,7 @@ func TestC04(t *testing.T) {
 		}
 	}
 	// ---- rapid
+	routes.Rapid(ev.Share(ev.Pick(12000, 240000)), genRoute)
 	jdRoundTrip.Rapid(ev.Share(ev.Pick(20000, 400000)), func(t *rapid.T) dtCase { return dtCase{genSeamOrAny(t)} })
 	jdInverse.Rapid(ev.Share(ev.Pick(40000, 800000)), func(t *rapid.T) jdCase {
 		d := genSeamOrAny(t)
